@@ -105,12 +105,16 @@ TEXT = {
   "technique": "Coq proof (whole-packet round trip for all 15 types over the translated encoder/decoder IR; API histories by invariant) + correspondence + round-trip oracle",
  },
  "C02": {
-  "level": "Theorems C02_framing (for every packet type and value: one frame, minimal remaining length equal to the bytes that follow, accepted by the "
-           "specification's parser) and C02_fields (the specification's field parsers accept and return what the library's field encoders write). Per-packet "
-           "field order, allowed identifiers and presence rules are judged on the implementation by the extracted strict decoder of Spec/Mqtt5.v "
-           "(independent of the library: no shared constant or table).",
-  "note": NOTE + " The specification model is my transcription of the OASIS text; its decoder reads back its own encoder on every generated frame.",
-  "technique": "Coq proof (framing, field-level conformance) + extracted strict specification decoder as judge of WriteTo output",
+  "level": "Theorem C02_conforms (Properties/C02.v) is the whole statement on the model, for all fifteen types and with no bound on sizes or counts: for "
+           "every packet of the C01 domain that is well formed in the respects the specification checks, WriteTo's bytes are exactly one frame which the "
+           "independent strict decoder of Spec/Mqtt5.v accepts (type and reserved flags, minimal remaining length, field order, reason code and property "
+           "length whenever properties follow, only allowed identifiers, each of its specified type and at most once), and the specification's reading of "
+           "the frame equals the accessors. C02_api states it for every history of constructor/setter calls; spec_roundtrip shows the specification's "
+           "decoder and encoder agree on all valid abstract frames. Also C02_framing, C02_fields. Tied to the source by the regenerated encoder IR and "
+           "constants (sync lemmas), fingerprints, correspondence, and the extracted strict decoder judging WriteTo's output on the implementation.",
+  "note": NOTE + " The specification model is my transcription of the OASIS text (no constant or table shared with the library model); that transcription "
+          "is part of the trusted base.",
+  "technique": "Coq proof (conformance of every written frame to the independent specification decoder, all 15 types; API histories by invariant) + extracted strict specification decoder as judge of WriteTo output",
  },
  "C03": {
   "level": "Theorem C03_valid_frames (Properties/C03.v): for every abstract frame of the specification model - any of the fifteen types, the properties "
@@ -122,8 +126,8 @@ TEXT = {
            "source by the regenerated decoder IR and property maps (sync lemmas), fingerprints, correspondence, and the acceptance oracle driven by the "
            "extracted specification encoder.",
   "note": NOTE + " Known finding D13 is listed in KNOWN_FINDINGS.txt and reported as KNOWN-FINDING. The statement quantifies over frames written by the "
-          "specification's encoder; that every byte string its strict decoder accepts is such a frame is exercised by the generator (decode of encode) but "
-          "not proved.",
+          "specification's encoder; C03_spec_consistent proves its strict decoder returns exactly those frames from those bytes; that the decoder "
+          "accepts no other byte string (uniqueness of the encoding) is not proved.",
   "technique": "Coq proof (acceptance of every specification-encoded frame, any property order, for all 15 types; refutation witness for D13) + specification-encoder-driven acceptance oracle",
  },
  "C09": {
